@@ -8,12 +8,16 @@ oracle.  specs/MC_Djc.tla (alphabet "provide") enumerates every page up to a nod
 library with consumers with/without default, a provider around a slot, consumers inside and after a
 component's own provider.  specs/DjcProvide.tla is the implementation-shaped refcount machine
 (provide_cache / provide_references / all_reference_ids) whose invariants InjectSound and
-Quiescent TLC checks over all orders in which deferred consumers finish.
+Quiescent TLC checks over all orders in which deferred consumers finish.  specs/ProvideRefs.tla is
+the general machine (any providers / referrers / call order) with an inductive invariant (TLC from all
+IndInv states, Apalache symbolically) that implies NoKeyError, OpenAlive, InjectSound and Quiescent.
 
 spec -> code: every enumerated page rendered for real, inject echoes compared.
 code -> spec: random programs with nested / shadowing / sibling providers, and HISTORIES of
               consecutive renders in one process without resetting the library's registries;
-              after every successful render the provide registries must be empty (Quiescent).
+              after every successful render the provide registries must be empty (Quiescent);
+              every call of the provide functions during those renders is recorded at its linearization
+              point (vf/provtrace.py) and validated step by step by TLC against ProvideRefs.tla.
 """
 from __future__ import annotations
 
@@ -21,7 +25,7 @@ import json
 import random
 from typing import Any, Dict, List, Optional
 
-from . import djc, prog as P, tlc
+from . import djc, prog as P, provrefs, provtrace, tlc
 from .core import Check
 from .pool import pmap
 
@@ -38,7 +42,11 @@ def _history(progs):
     for p in progs:
         P.install(p)
         before = (set(pp.provide_cache), set(pp.provide_references), set(pp.all_reference_ids))
+        pre = provtrace.snapshot_now() if provtrace.start() else None
         o = P.render_page(p)
+        if pre is not None:
+            provtrace.mark_end(bool(o.get("err")))
+            o["ptrace"] = provtrace.project(provtrace.stop() or [], pre)
         o["residue"] = {"provide_cache": len(set(pp.provide_cache) - before[0]),
                         "provide_references": len(set(pp.provide_references) - before[1]),
                         "all_reference_ids": len(set(pp.all_reference_ids) - before[2])}
@@ -73,10 +81,13 @@ def model_check_refcount(chk: Check) -> None:
     if "InjectSound" not in r.violated and "RefsWellFormed" not in r.violated:
         raise MachineryError("DjcProvide with OwnerRef=FALSE should be refuted (lazy default content; vacuity guard)")
     chk.add("refcount_noowner_counterexample_found", 1)
+    # the general machine (any number of providers / referrers, any order of calls): inductive invariant
+    provrefs.model_check(chk, apalache=False)
 
 
 def body(chk: Check, *, mc_nodes: int, n_random: int, n_hist: int, hist_len: int, deep: int, refcount: bool = True) -> None:
     states = trans = 0
+    apa = provrefs.start_apalache() if refcount else None     # symbolic inductiveness runs beside the replays
     if refcount:
         model_check_refcount(chk)
     for mode in P.MODES:
@@ -110,6 +121,16 @@ def body(chk: Check, *, mc_nodes: int, n_random: int, n_hist: int, hist_len: int
         flat_p += h
         flat_o += os_
     st = djc.compare_batch(chk, flat_p, exph, flat_o, "history", extra_check=quiescent_check)
+    # code -> spec, operation level: every call of the provide functions made by the renders of the histories,
+    # validated step by step against the general refcount machine ProvideRefs.tla (Trace_ProvideRefs.tla)
+    ptr = [({"program": djc.brief(p), "json": p}, o["ptrace"]) for p, o in zip(flat_p, flat_o)
+           if isinstance(o, dict) and o.get("ptrace") is not None and len(o["ptrace"]["events"]) > 1
+           and not exph[p["id"]]["zone"]]
+    if ptr:
+        pst = provrefs.validate(chk, ptr, "history")
+        chk.add("traces_validated_against_impl", pst["validated"])
+    if refcount:
+        provrefs.finish_apalache(chk, apa)
     chk.add("histories", n_hist)
     chk.add("traces_validated_against_impl", len(flat_p) - st["zone"])
     chk.add("states", states + djc.oracle.last_states)
